@@ -299,7 +299,7 @@ def run(ctx):
     # generator floors (quick-tier sizes): an input class the check relies on must really have been produced
     floors = {
         "c05conn": {"fault.write-to-upstream-fails": 70, "fault.write-to-client-fails": 40, "fault.context-cancelled": 80,
-                    "fault.dial-fails": 20, "fault.client-conn-without-closewrite": 90, "directed": 19},
+                    "fault.dial-fails": 20, "fault.client-conn-without-closewrite": 90, "directed": 21},
         "c05par": {"fault.write-to-upstream-fails": 10, "fault.write-to-client-fails": 10, "fault.context-cancelled": 12},
         "c05tcp": {"copy.dst-fails.opaque": 6, "copy.dst-fails.tcp-writev": 15},
         "c05wv": {"wv.step.partial": 800, "wv.step.i": 250, "wv.step.a": 250, "wv.step.A": 80, "wv.step.x": 120,
@@ -311,7 +311,7 @@ def run(ctx):
     if "c05conn" in dist:
         dist["c05conn"]["kind.*.tls-partial"] = sum(v for k, v in dist["c05conn"].items() if k.endswith(".tls-partial"))
     floors["c05conn"].update({"kind.*.tls-partial": 60, "sniff.partial-hello-and-nothing-after-it": 40,
-                              "sniff.several-need-more-rounds": 20})
+                              "sniff.several-need-more-rounds": 120})
     low = {f"{st}:{k}": (dist.get(st, {}).get(k, 0), v) for st, fl in floors.items() for k, v in fl.items()
            if dist.get(st, {}).get(k, 0) < v}
     ctx.cov["generator_floors"] = floors
